@@ -676,9 +676,7 @@ func boolLocalDef(f *Func, id *ast.Ident) ast.Expr {
 		}
 		return true
 	})
-	if !pure {
-		return nil
-	}
+	// (an impure definition - a call - is accepted further down only when the if statement follows immediately)
 	// the enclosing block of the definition, and the sibling if statement whose condition holds the use
 	var blk *ast.BlockStmt
 	ast.Inspect(root.Body, func(m ast.Node) bool {
@@ -695,15 +693,23 @@ func boolLocalDef(f *Func, id *ast.Ident) ast.Expr {
 		return nil
 	}
 	after := false
+	adjacent := false
 	for _, st := range blk.List {
 		if st == ast.Stmt(defStmt) {
 			after = true
+			adjacent = true
 			continue
 		}
 		if !after {
 			continue
 		}
+		if !(st.Pos() <= id.Pos() && id.End() <= st.End()) {
+			adjacent = false
+		}
 		if st.Pos() <= id.Pos() && id.End() <= st.End() {
+			if !pure && !adjacent {
+				return nil
+			}
 			for is, _ := st.(*ast.IfStmt); is != nil; {
 				if is.Init == nil && is.Cond.Pos() <= id.Pos() && id.End() <= is.Cond.End() {
 					return def
